@@ -55,12 +55,27 @@ var c10Keys = []string{"a", "ab", "\x00", "b", "\xff", "ba"}
 
 func c10Key(name string) []byte { return []byte(c10Keys[vChoice(name, vParam("NK", 4))]) }
 
+// c10Key2: a second key of an operation: any key (SLIM=0) or, in the quick tier,
+// the key after the first one in the universe (so equal keys are left to SLIM=0).
+func c10Key2(name string, first []byte) []byte {
+	if vParam("SLIM", 0) == 0 {
+		return c10Key(name)
+	}
+	nk := vParam("NK", 4)
+	for i := 0; i < nk; i++ {
+		if c10Keys[i] == string(first) {
+			return []byte(c10Keys[(i+1)%nk])
+		}
+	}
+	return first
+}
+
 func c10Run(kv kvi.KVInterface, tag string) {
 	D := vParam("D", 2)
 	id := func(s string) string { return "C10." + tag + "." + s }
 	model := &c10Store{}
 	readIDs := ""
-	for _, r := range []string{"get", "haskey", "scan", "seek", "seekreverse", "seek-twice", "iterator-get", "tx-get", "tx-haskey"} {
+	for _, r := range []string{"get", "haskey", "scan", "seek", "seekreverse", "seek-twice", "iterator-get", "tx-get", "tx-haskey", "forward-scan-after-reverse-seek", "reverse-scan-after-forward-seek"} {
 		readIDs += id(r) + ","
 	}
 	for s := 0; s < D; s++ {
@@ -89,7 +104,8 @@ func c10Run(kv kvi.KVInterface, tag string) {
 			}
 			model.keys, model.vals = ks, vs
 		case 3: // bulk write of two keys; the callback may fail: then nothing is written
-			k1, k2 := c10Key(name+".k1"), c10Key(name+".k2")
+			k1 := c10Key(name + ".k1")
+			k2 := c10Key2(name+".k2", k1)
 			fail := vChoice(name+".fail", 2) == 1
 			err := kv.BulkWrite(func(bl kvi.KVBulkWrite) error {
 				bl.Set(k1, []byte{1})
@@ -105,7 +121,8 @@ func c10Run(kv kvi.KVInterface, tag string) {
 				model.set(k2, []byte{2})
 			}
 		case 4: // transactional update: set then delete
-			k1, k2 := c10Key(name+".k1"), c10Key(name+".k2")
+			k1 := c10Key(name + ".k1")
+			k2 := c10Key2(name+".k2", k1)
 			err := kv.Update(func(tx kvi.KVTransaction) error {
 				tx.Set(k1, []byte{7})
 				tx.Delete(k2)
@@ -129,7 +146,7 @@ func c10Run(kv kvi.KVInterface, tag string) {
 	// reads
 	probe := c10Key("probe")
 	mi, mfound := model.pos(probe)
-	switch vChoice("read", 8) {
+	switch vChoice("read", 10) {
 	case 0:
 		v, err := kv.Get(probe)
 		vAssert(id("get"), (err == nil) == mfound && (!mfound || bytes.Equal(v, model.vals[mi])))
@@ -170,7 +187,7 @@ func c10Run(kv kvi.KVInterface, tag string) {
 			return nil
 		})
 	case 5: // a second seek on the same iterator: a miss after a hit leaves nothing behind
-		first := c10Key("first")
+		first := c10Key2("first", probe)
 		kv.View(func(it kvi.KVIterator) error {
 			it.Seek(first)
 			it.Seek(probe)
@@ -183,6 +200,45 @@ func c10Run(kv kvi.KVInterface, tag string) {
 			vAssert(id("iterator-get"), (err == nil) == mfound && (!mfound || bytes.Equal(v, model.vals[mi])))
 			return nil
 		})
+	case 7: // direction changes on one iterator: a reverse seek, then a forward scan
+		first := c10Key2("first", probe)
+		var got [][]byte
+		kv.View(func(it kvi.KVIterator) error {
+			it.SeekReverse(first)
+			for it.Seek(probe); it.Valid(); it.Next() {
+				got = append(got, it.Key())
+			}
+			return nil
+		})
+		want := model.keys[mi:]
+		ok := len(got) == len(want)
+		for i := range got {
+			if i < len(want) && !bytes.Equal(got[i], want[i]) {
+				ok = false
+			}
+		}
+		vAssert(id("forward-scan-after-reverse-seek"), ok)
+	case 8: // ... and a forward seek, then a reverse scan (Next after SeekReverse steps backwards)
+		first := c10Key2("first", probe)
+		var got [][]byte
+		kv.View(func(it kvi.KVIterator) error {
+			it.Seek(first)
+			for it.SeekReverse(probe); it.Valid(); it.Next() {
+				got = append(got, it.Key())
+			}
+			return nil
+		})
+		last := mi
+		if !mfound {
+			last = mi - 1
+		}
+		ok := len(got) == last+1
+		for i := range got {
+			if last-i >= 0 && !bytes.Equal(got[i], model.keys[last-i]) {
+				ok = false
+			}
+		}
+		vAssert(id("reverse-scan-after-forward-seek"), ok)
 	default: // reads inside a transaction see the stored state
 		kv.Update(func(tx kvi.KVTransaction) error {
 			v, err := tx.Get(probe)
